@@ -84,6 +84,7 @@ Lemma proxy_dict_copies o it rest : copies it (proxy_dict o (it :: rest)).
 Proof.
   unfold proxy_dict. destruct (ri_payload it) as [p|].
   - destruct (copy_fields p (dict_fields o)); simpl; auto.
+    destruct o; simpl; auto. destruct (check_norm a); simpl; auto.
   - destruct o; simpl; auto.
 Qed.
 
@@ -239,6 +240,7 @@ Proof.
   - simpl. destruct v1; simpl in Hx; try discriminate; eauto.
   - simpl. destruct v0; try discriminate. destruct (all_bytes l); try discriminate. eauto.
   - simpl. destruct v, v0; simpl in Hx; try discriminate; eauto.
+  - destruct v1; try discriminate; vm_compute; eauto.
 Qed.
 
 (* ------------------------------------------------------------------ failures *)
